@@ -3,9 +3,9 @@
   (KestrelModel/GeneratedCli.lean, names `Kestrel.CliSrc.commands.*`), against the hand-written model of the commands in
   KestrelModel/Cli.lean: the password helpers (`read_env_pass`, `read_env_new_pass`, `ask_pass`, `confirm_loop`,
   `confirm_password`, `confirm_new_pass`), `open_keyring`, and the two commands `change_pass` and `extract_pub` in full.
-  The other five commands (`encrypt`, `decrypt`, `pass_encrypt`, `pass_decrypt`, `gen_key`) and `open_input` / `open_output` /
-  `OnDemandFile` / `ask_user_stderr` are NOT translated (trait objects `Box<dyn Read>` / `Box<dyn Write>`; see the header of
-  the generated file) and nothing is claimed about them.
+  The other five commands are the subject of KestrelProps/CliStreamSrc.lean (`encrypt`, `decrypt`, `pass_encrypt`,
+  `pass_decrypt`, with `open_input` / `open_output` / `OnDemandFile`) and KestrelProps/CliGenKeySrc.lean (`gen_key`,
+  `ask_user_stderr`, and the whole program for the `key` commands).
 
   Setting: as in the model, no terminal is attached (`RsCli.isatty` is constantly false, the terminal prompt fails), the
   environment holds strings, a file read fails exactly when the path has no entry in the model's `World`.
